@@ -15,7 +15,14 @@ import (
 )
 
 func init() {
-	core.Register(core.Check{ID: "C18", Level: "exploration", Run: func(c *core.Ctx) { runC18(c); historyPass(c, "C18"); reentrancyPass(c, "C18"); arch386Pass(c, "C18") }})
+	core.Register(core.Check{ID: "C18", Level: "exploration", Run: func(c *core.Ctx) {
+		again := vrfFirstUse(c, "C18")
+		runC18(c)
+		historyPass(c, "C18")
+		reentrancyPass(c, "C18")
+		arch386Pass(c, "C18")
+		again()
+	}})
 }
 
 type c18case struct {
@@ -236,6 +243,36 @@ func runC18(c *core.Ctx) {
 					for _, e := range ed.AllEncodings(q) {
 						add(h, h.pk, append(append([]byte{}, e[:]...), h.pi[32:]...), "gamma-low-y")
 						add(h, e[:], h.pi, "key-low-y")
+					}
+				}
+			}
+		}
+		// encodings whose bytes LOOK like the field prime p = ed ff .. ff 7f in the places a byte-wise canonical test
+		// examines (lowest byte around 0xed, the two highest bytes ff 7f / ff ff / fe 7f) while the bytes in between make
+		// them canonical: the middle is searched for the first values that give a curve point. As Gamma and as key.
+		if k == 0 {
+			for _, b0 := range []byte{0xec, 0xed, 0xee, 0xff} {
+				for _, b30 := range []byte{0xfe, 0xff} {
+					for _, b31 := range []byte{0x7e, 0x7f, 0xfe, 0xff} {
+						for _, mid := range []byte{0x00, 0xff} {
+							var enc [32]byte
+							for i := 1; i < 30; i++ {
+								enc[i] = mid
+							}
+							enc[0], enc[30], enc[31] = b0, b30, b31
+							found := false
+							for v := 0; v < 256 && !found; v++ {
+								enc[15] = byte(v)
+								if p, ok := ed.DecodePermissive(enc[:]); ok && !p.IsSmallOrder() {
+									found = true
+								}
+							}
+							if !found {
+								continue
+							}
+							add(h, h.pk, append(append([]byte{}, enc[:]...), h.pi[32:]...), "gamma-looks-like-p")
+							add(h, enc[:], h.pi, "key-looks-like-p")
+						}
 					}
 				}
 			}
